@@ -290,7 +290,18 @@ def _run_case(case):
     classes = [A1, B1, K1, D0]
     pick = [classes[i] for i in rng.permutation(4)[:int(rng.integers(1, 5))]]
     subs = [cls() for cls in pick]
-    if len(subs) == 1:
+    if rng.random() < 0.25:
+        # a combination that starts with two sub-detectors of one kind, grows by `+=` with one of another kind, and is then nested as
+        # a single operand of a further sum: the grown combination must pass on the keywords of its late-comer as well
+        first = [A1, B1][int(rng.integers(0, 2))]
+        late = B1 if first is A1 else A1
+        inner = [first(), first(), late()]
+        grown = CombinedDetector(inner[0], inner[1])
+        grown += inner[2]
+        head = K1()
+        subs = [head] + inner
+        c = head + grown
+    elif len(subs) == 1:
         # a combination of exactly one (still unbuilt) sub-detector, made directly or by adding to an empty combination
         c = CombinedDetector(subs[0]) if rng.random() < 0.5 else CombinedDetector() + subs[0]
     else:
